@@ -189,6 +189,8 @@ impl ParallelRuleEngine {
 
                     let mut thread_results = Vec::new();
                     for rule in chunk {
+                        #[cfg(rre_verif)]
+                        crate::verif_hooks::yield_point();
                         let start = Instant::now();
                         // Pass functions to evaluator
                         let fired =
@@ -221,6 +223,8 @@ impl ParallelRuleEngine {
                         });
                     }
 
+                    #[cfg(rre_verif)]
+                    crate::verif_hooks::yield_point();
                     let mut results = results_clone.lock().unwrap();
                     results.extend(thread_results);
                 })
